@@ -149,6 +149,39 @@ theorem loop_node_eq (f d : Nat) (id : Nat) (ml : Bool) (ex : Option Bool) (body
   simp only [runNodes, loopFin, decide_eq_true_eq]
   first | rfl | (split <;> rfl) | (split <;> split <;> rfl) | (cases d <;> simp)
 
+/-- one iteration of a loop as `runNodes` performs it: the body on the entry buffers, then the loop's swap code -/
+def loopStep (f d id : Nat) (body : List Node) (s2 : List Int) (st : LSt) : Option LSt :=
+  match runNodes f (d + 1) body st.env (st.main ++ st.extra) s2 with
+  | some r => some ⟨swapAll (directDelays body) r.1, [], [], st.exit ++ r.2.1, st.outs ++ ((100 + id, [1]) :: r.2.2)⟩
+  | none => none
+
+theorem loop_node_uses_loopStep (f d : Nat) (id : Nat) (ml : Bool) (ex : Option Bool) (body ns : List Node)
+    (env : Env) (b s2 : List Int) :
+    runNodes (f + 1) d (.loop id ml ex body :: ns) env b s2 =
+      match loopFin (decide (d = 0))
+          (fun st : LSt => gateOf ((ml, st.main) :: (match ex with | some l => [(l, st.extra)] | none => []))
+            (directDelays body) st.env)
+          (loopStep f d id body s2) f ⟨env, b, if ex.isSome then s2 else [], [], []⟩ with
+      | some st => (runNodes f d ns st.env st.exit s2).map fun r => (r.1, r.2.1, st.outs ++ r.2.2)
+      | none => none := loop_node_eq f d id ml ex body ns env b s2
+
+/-- **Windowing**: `batch()` / `batch_lazy()` release the whole entry batch to the iteration that runs first and
+nothing afterwards (an iteration leaves both entry buffers empty, so every later iteration's body input is `[]`), and
+`all_iterations()` hands on everything every iteration produced, in iteration order (the exit buffer only grows, by
+exactly the body's output). -/
+theorem windowing_releases_batch_once (f d id : Nat) (body : List Node) (s2 : List Int) (st st1 : LSt)
+    (h : loopStep f d id body s2 st = some st1) :
+    st1.main = [] ∧ st1.extra = [] ∧
+      ∃ r, runNodes f (d + 1) body st.env (st.main ++ st.extra) s2 = some r ∧ st1.exit = st.exit ++ r.2.1 ∧
+        st1.env = swapAll (directDelays body) r.1 := by
+  unfold loopStep at h
+  split at h
+  · rename_i r hr
+    simp only [Option.some.injEq] at h
+    subst h
+    exact ⟨rfl, rfl, r, hr, rfl, rfl⟩
+  · simp at h
+
 /-- **A root-level loop runs at most once per tick**: whatever the gate and the body, the root shape executes
 `step` (the body) at most once — it is `step st0` or `st0` itself. -/
 theorem root_loop_at_most_once_per_tick (gate : LSt → Bool) (step : LSt → Option LSt) (f : Nat) (st0 : LSt) :
@@ -191,7 +224,7 @@ theorem gate_ignores_lazy (entries : List (Bool × List Int)) (delays : List (Na
 theorem gate_opens (entries : List (Bool × List Int)) (delays : List (Nat × Bool)) (env : Env) :
     gateOf entries delays env = true ↔
       (∃ e ∈ entries, e.1 = false ∧ e.2 ≠ []) ∨ (∃ d ∈ delays, d.2 = false ∧ (env.get d.1).back ≠ []) := by
-  simp [gateOf, List.any_eq_true, List.isEmpty_iff]
+  simp [gateOf, List.any_eq_true]
 
 /-- **A loop fed only through `batch_lazy` never fires on its own** (finding F26, fixed in /repo: before the fix the
 empty list of gate conditions made `emit_loop_gate` emit the body unconditionally): with a lazy main entry, a lazy
@@ -234,7 +267,7 @@ theorem defer_node_eq (f d p : Nat) (l : Bool) (ns : List Node) (env : Env) (b s
 /-- one-iteration delay under an explicit frame hypothesis (discharged by `frame` below) -/
 theorem aux_deferTick_under_frame (f d p : Nat) (l : Bool) (post : List Node) (env : Env)
     (b1 b2 s2 : List Int) (r1 : Env × List Int × Outs)
-    (h1 : runNodes (f + 1) d (.defer p l :: post) env b1 s2 = some r1)
+    (_h1 : runNodes (f + 1) d (.defer p l :: post) env b1 s2 = some r1)
     (hframe : r1.1.get p = (env.set p ⟨b1, []⟩).get p) :
     runNodes (f + 1) d (.defer p l :: post) (swapAll [(p, l)] r1.1) b2 s2 =
       runNodes f d post ((swapAll [(p, l)] r1.1).set p ⟨b2, []⟩) b1 s2 := by
@@ -420,6 +453,130 @@ theorem deferTick_in_loop_one_iteration (f d p : Nat) (l : Bool) (post : List No
   apply aux_deferTick_under_frame f d p l post env b1 b2 s2 r1 h1
   rw [defer_node_eq] at h1
   exact frame p f d post _ _ s2 r1 h1 hpost
+
+/-! ### `defer_tick` anywhere in a loop body -/
+
+/-- sequencing of two runs: the second continues from the first one's handoffs and output batch; tap records append -/
+def andThen (x : Option (Env × List Int × Outs)) (k : Env → List Int → Option (Env × List Int × Outs)) :
+    Option (Env × List Int × Outs) :=
+  match x with
+  | some r => (k r.1 r.2.1).map fun q => (q.1, q.2.1, r.2.2 ++ q.2.2)
+  | none => none
+
+theorem aux_andThen_map (x : Option (Env × List Int × Outs)) (k : Env → List Int → Option (Env × List Int × Outs))
+    (o : Outs) :
+    andThen (x.map fun r => (r.1, r.2.1, o ++ r.2.2)) k = (andThen x k).map fun r => (r.1, r.2.1, o ++ r.2.2) := by
+  cases x with
+  | none => rfl
+  | some r =>
+    simp only [andThen, Option.map_some]
+    cases k r.1 r.2.1 with
+    | none => rfl
+    | some q => simp [List.append_assoc]
+
+/-- **A block runs its nodes in sequence**: `pre ++ rest` is `pre`, then `rest` on what `pre` left (with the budget
+`pre` did not use). -/
+theorem runNodes_append (f d : Nat) (pre rest : List Node) (env : Env) (b s2 : List Int) :
+    runNodes f d (pre ++ rest) env b s2 =
+      andThen (runNodes f d pre env b s2) (fun e c => runNodes (f - pre.length) d rest e c s2) := by
+  induction pre generalizing f env b with
+  | nil =>
+    cases f with
+    | zero => simp [runNodes, andThen]
+    | succ k =>
+      simp only [List.nil_append, runNodes, andThen, List.length_nil, Nat.sub_zero, List.nil_append]
+      cases runNodes (k + 1) d rest env b s2 <;> simp
+  | cons n ns ih =>
+    cases f with
+    | zero => simp [runNodes, andThen]
+    | succ k =>
+      have hk : k + 1 - (n :: ns).length = k - ns.length := by simp
+      rw [hk]
+      cases n with
+      | map c => simp only [List.cons_append, runNodes]; exact ih k env _
+      | tap i =>
+        simp only [List.cons_append, runNodes]
+        rw [ih k env b]
+        have := aux_andThen_map (runNodes k d ns env b s2) (fun e c => runNodes (k - ns.length) d rest e c s2) [(i, b)]
+        simp only [List.singleton_append] at this
+        exact this.symm
+      | defer q l => simp only [List.cons_append, runNodes]; exact ih k _ _
+      | cycle q l m => simp only [List.cons_append, runNodes]; exact ih k _ _
+      | loop id ml ex body =>
+        rw [List.cons_append, loop_node_eq, loop_node_eq]
+        split
+        · rename_i st _
+          rw [ih k st.env st.exit]
+          exact (aux_andThen_map _ _ st.outs).symm
+        · rfl
+
+theorem aux_directDelays_append (pre post : List Node) (x : Nat × Bool) (n : Node)
+    (hn : directDelays [n] = [x]) :
+    directDelays (pre ++ n :: post) = directDelays pre ++ x :: directDelays post := by
+  induction pre with
+  | nil =>
+    cases n <;> simp_all [directDelays]
+  | cons m ms ih =>
+    cases m <;> simp [directDelays, ih]
+
+theorem aux_swapAll_once (p : Nat) (l : Bool) (A B : List (Nat × Bool)) (env : Env)
+    (hA : ∀ x ∈ A, x.1 ≠ p) (hB : ∀ x ∈ B, x.1 ≠ p) :
+    (swapAll (A ++ (p, l) :: B) env).get p = ⟨(env.get p).back, (env.get p).buf⟩ := by
+  have h1 : swapAll (A ++ (p, l) :: B) env = swapAll B (swapAll [(p, l)] (swapAll A env)) := by
+    simp [swapAll, List.foldl_append]
+  rw [h1, aux_swapAll_frame p B _ hB, aux_swap_single, aux_swapAll_frame p A _ hA]
+
+/-- **`defer_tick` inside a loop delays by exactly one iteration — wherever it stands in the body**: for a body
+`pre ++ defer_tick :: post` whose other nodes do not mention the `defer_tick`'s handoff (positions are distinct), with
+the loop's real swap code (`swapAll` over *all* delayed handoffs of the body) between two iterations: if in one
+iteration the prefix hands `c1` to the `defer_tick`, then in the next iteration — whatever batch `b2` enters the loop and
+whatever `c2` the prefix produces then — `post` receives exactly `c1` (and the handoff now stores `c2`). -/
+theorem deferTick_in_loop_one_iteration_general (f d p : Nat) (l : Bool) (pre post : List Node) (env : Env)
+    (b1 b2 s2 : List Int) (r1 : Env × List Int × Outs) (e1 e2 : Env) (c1 c2 : List Int) (o1 o2 : Outs)
+    (h1 : runNodes f d (pre ++ .defer p l :: post) env b1 s2 = some r1)
+    (hpre1 : runNodes f d pre env b1 s2 = some (e1, c1, o1))
+    (hpre2 : runNodes f d pre (swapAll (directDelays (pre ++ .defer p l :: post)) r1.1) b2 s2 = some (e2, c2, o2))
+    (hmpre : mentions p f pre = false) (hmpost : mentions p (f - pre.length - 1) post = false) :
+    runNodes f d (pre ++ .defer p l :: post) (swapAll (directDelays (pre ++ .defer p l :: post)) r1.1) b2 s2 =
+      (runNodes (f - pre.length - 1) d post (e2.set p ⟨c2, []⟩) c1 s2).map fun q => (q.1, q.2.1, o2 ++ q.2.2) := by
+  -- first iteration: what the handoff holds at its end
+  rw [runNodes_append, hpre1] at h1
+  simp only [andThen] at h1
+  cases hk : f - pre.length with
+  | zero => simp [hk, runNodes] at h1
+  | succ k =>
+    have hk1 : f - pre.length - 1 = k := by omega
+    rw [hk1] at hmpost
+    simp only [Nat.add_sub_cancel]
+    rw [hk, defer_node_eq] at h1
+    cases hq : runNodes k d post (e1.set p ⟨c1, []⟩) (e1.get p).back s2 with
+    | none => simp [hq] at h1
+    | some q =>
+      simp only [hq, Option.map_some, Option.some.injEq] at h1
+      have hr1 : r1.1 = q.1 := by rw [← h1]
+      have hq1 : q.1.get p = ⟨c1, []⟩ := by
+        rw [frame p k d post _ _ s2 q hq hmpost, aux_get_set_same]
+      -- the loop's swap code turns it into the back buffer
+      have hA := aux_direct_not_mentioned p f d pre env b1 s2 (by rw [hpre1]; rfl) hmpre
+      have hB := aux_direct_not_mentioned p k d post _ _ s2 (by rw [hq]; rfl) hmpost
+      have hswap : (swapAll (directDelays (pre ++ .defer p l :: post)) r1.1).get p = ⟨[], c1⟩ := by
+        rw [aux_directDelays_append pre post (p, l) (.defer p l) (by simp [directDelays]),
+          aux_swapAll_once p l _ _ _ hA hB, hr1, hq1]
+      -- second iteration: the prefix does not touch it, the `defer_tick` hands it on
+      rw [runNodes_append, hpre2]
+      simp only [andThen]
+      rw [hk, defer_node_eq]
+      have he2 := frame p f d pre _ _ s2 (e2, c2, o2) hpre2 hmpre
+      simp only at he2
+      rw [he2, hswap]
+
+/-- a loop body `map(+1) -> tap 0 -> defer_tick -> tap 1` run twice with the loop's swap in between: the second
+iteration's `tap 1` shows what the first iteration's prefix produced -/
+example :
+    let body : List Node := [.map 1, .tap 0, .defer 7 false, .tap 1]
+    ((runNodes 20 1 body [] [10] []).bind fun r1 =>
+      (runNodes 20 1 body (swapAll (directDelays body) r1.1) [20] []).map (·.2.2)) =
+      some [(0, [21]), (1, [11])] := by decide
 
 /-! ### the catalogue of windowing operators (regenerated from the operator sources on every run) -/
 
